@@ -260,8 +260,40 @@ impl Prop for Isolated {
         let mut group_keys: Vec<(u8, u8)> = Vec::new();
         let mut undone_deleting = 0;
         let debug = std::env::var("VERIF_DEBUG").is_ok();
+        // "undo and redo are ordinary replicated operations": a follower fed with the update events
+        // and a peer that pulls by state vector must show what the document shows, after every step
+        let fol_ev = Replica::new(Cfg { client: 8001, utf16: case.cfg.utf16, skip_gc: true, cleanup: false });
+        let fol_sv = Replica::new(Cfg { client: 8002, utf16: case.cfg.utf16, skip_gc: false, cleanup: false });
+        let follow = |when: &str, st: &mut CaseStats| -> Result<(), Fail> {
+            let ev = rep.drain();
+            for (k, u) in ev.v1.iter().enumerate() {
+                let r = if k % 2 == 1 && k < ev.v2.len() { fol_ev.apply(&ev.v2[k], true) } else { fol_ev.apply(u, false) };
+                if let Err(e) = r {
+                    fail!("c12/isolated/follower-apply-failed", "after {}: update event cannot be applied: {}", when, e);
+                }
+            }
+            let bytes = yrs::ReadTxn::encode_state_as_update_v1(&rep.doc.transact(), &fol_sv.sv());
+            if let Err(e) = fol_sv.apply(&bytes, false) {
+                fail!("c12/isolated/follower-apply-failed", "after {}: state-vector answer cannot be applied: {}", when, e);
+            }
+            fol_ev.drain();
+            fol_sv.drain();
+            let d = rep.dump();
+            for (name, f) in [("follower fed with the update events", &fol_ev), ("peer that pulls by state vector", &fol_sv)] {
+                ensure!(!f.has_missing(), "c12/isolated/follower-pending", "after {}: the {} reports missing updates", when, name);
+                let fd = f.dump();
+                if fd != d {
+                    fail!("c12/isolated/follower-diverges", "after {}: the {} does not show what the document shows: {}", when, name, first_diff(&fd, &d).unwrap_or_default());
+                }
+            }
+            st.hit("follower_comparisons");
+            Ok(())
+        };
         for (si, step) in case.steps.iter().enumerate() {
             let when = format!("step {} {:?}", si, step);
+            if si > 0 {
+                follow(&format!("step {} {:?}", si - 1, case.steps[si - 1]), st)?;
+            }
             if debug {
                 eprintln!("-- before {}: groups {:?} redo {:?} last_change {} real {}", when, groups.iter().map(|g| g.short()).collect::<Vec<_>>(), redo.len(), last_change, scope_dump(&rep, case.scope).short());
             }
@@ -440,6 +472,7 @@ impl Prop for Isolated {
                 }
             }
         }
+        follow("the last step", st)?;
         if undone_deleting >= 2 {
             st.nt();
         }
